@@ -590,12 +590,23 @@ impl Plan {
             let mut layer_indices = IntSet::empty();
             let mut palette_indices = IntSet::empty();
             let mut variation_indices = IntSet::empty();
-            colr.v1_closure(
-                &mut self.glyphset_colred,
-                &mut layer_indices,
-                &mut palette_indices,
-                &mut variation_indices,
-            );
+            // A glyph pulled in as a layer / PaintGlyph shape can itself be a color glyph. Its
+            // record is retained like that of any other kept glyph, so whatever it references
+            // has to be collected too: repeat until no new glyph shows up.
+            loop {
+                let num_glyphs = self.glyphset_colred.len();
+                colr.v1_closure(
+                    &mut self.glyphset_colred,
+                    &mut layer_indices,
+                    &mut palette_indices,
+                    &mut variation_indices,
+                );
+                let glyphs = self.glyphset_colred.clone();
+                colr.v0_closure_glyphs(&glyphs, &mut self.glyphset_colred);
+                if self.glyphset_colred.len() == num_glyphs {
+                    break;
+                }
+            }
 
             colr.v0_closure_palette_indices(&self.glyphset_colred, &mut palette_indices);
             let _ = std::mem::replace(&mut self.colrv1_layers, remap_indices(layer_indices));
